@@ -351,14 +351,14 @@ func (it *Interp) visitInstr(fr *frame, instr ssa.Instruction) (ret bool, jumped
 		fn, args := it.prepareCall(fr, &instr.Call)
 		it.spawn(fn, args, instr.Pos())
 	case *ssa.MakeChan:
-		n := it.concretizeInt(fr.get(instr.Size).(*Term), true)
+		n := it.concretizeInt(fr.get(instr.Size).(*Term), isSigned(instr.Size.Type()))
 		fr.set(instr, &Chan{cap: int(n), elemT: under(instr.Type()).(*types.Chan).Elem(), id: it.nextChanID()})
 	case *ssa.Alloc:
 		v := it.ctx.zero(mustDeref(instr.Type()))
 		fr.set(instr, &v)
 	case *ssa.MakeSlice:
-		ln := it.concretizeInt(fr.get(instr.Len).(*Term), true)
-		cp := it.concretizeInt(fr.get(instr.Cap).(*Term), true)
+		ln := it.concretizeInt(fr.get(instr.Len).(*Term), isSigned(instr.Len.Type()))
+		cp := it.concretizeInt(fr.get(instr.Cap).(*Term), isSigned(instr.Cap.Type()))
 		if ln < 0 || cp < ln {
 			panic(it.throw("makeslice: len out of range"))
 		}
@@ -680,8 +680,57 @@ func (it *Interp) indexAddr(x Value, idx *Term, instr *ssa.IndexAddr) Value {
 			return &SymRef{cells: cells, idx: idx}
 		}
 	}
+	// non-scalar cells: if the pointer is only loaded from and every cell holds the same
+	// reference (typically all nil), the load needs no case split
+	if len(cells) > 8 && readOnlyUse(instr) {
+		if v, same := allSameRef(cells); same {
+			tmp := v
+			return &tmp
+		}
+	}
 	i := it.concretizeInt(idx, true)
 	return &cells[i]
+}
+
+func readOnlyUse(instr *ssa.IndexAddr) bool {
+	refs := instr.Referrers()
+	if refs == nil {
+		return false
+	}
+	for _, r := range *refs {
+		u, ok := r.(*ssa.UnOp)
+		if !ok || u.Op != token.MUL {
+			return false
+		}
+	}
+	return true
+}
+
+// allSameRef reports whether all cells hold the identical reference-like value.
+func allSameRef(cells []Value) (Value, bool) {
+	first := cells[0]
+	for _, c := range cells[1:] {
+		switch f := first.(type) {
+		case Slice:
+			cs, ok := c.(Slice)
+			if !ok || !(f == nil && cs == nil) {
+				return nil, false
+			}
+		case *Value:
+			cp, ok := c.(*Value)
+			if !ok || cp != f {
+				return nil, false
+			}
+		case string:
+			cs, ok := c.(string)
+			if !ok || cs != f {
+				return nil, false
+			}
+		default:
+			return nil, false
+		}
+	}
+	return first, true
 }
 
 func (it *Interp) idx64(idx *Term, t types.Type) *Term {
